@@ -372,6 +372,12 @@ def verify_hyperparameters(num_input_dims=None,
           raise ValueError("Range dominance constraint's dimensions must "
                            "have `input_max` set. Dimension %d is not set." %
                            (dim))
+        if input_min[dim] >= input_max[dim]:
+          # The projection scales weights by the input range and back.
+          raise ValueError("Range dominance constraint's dimensions must "
+                           "have 'input_min' less than 'input_max'. "
+                           "Dimension: %d, input_min[%d]: %f, input_max[%d]: %f"
+                           % (dim, dim, input_min[dim], dim, input_max[dim]))
       if (weak_dim, dominant_dim) in dim_pairs:
         raise ValueError("Cannot have two range dominance constraints on the "
                          "same pair of features conflicting. Features: %d, %d" %
